@@ -256,6 +256,10 @@ def _other_reads(rr) -> bool:
                 if x[0] == "call" and isinstance(x[1], str) and x[1] in (".readlines", ".read", "numpy.loadtxt", "numpy.genfromtxt", "numpy.fromfile", "numpy.fromstring",
                                                                           "itertools.islice", "builtins.next", ".__next__", "pandas.read_csv", "builtins.list", "builtins.iter"):
                     return True
+                # the handle handed to any other callable (a helper, a generator): it may consume lines there
+                if x[0] == "call" and isinstance(x[1], str) and x[1] not in (".readline", ".split") and \
+                        any(a_ == ("sym", "f") for a_ in (list(x[2][1:] if x[1].startswith(".") else x[2]) + [v_ for _, v_ in x[3] if isinstance(v_, tuple)])):
+                    return True
     return any(L.iter == ("sym", "f") for L in rr.it.loops.values())
 
 
